@@ -23,7 +23,8 @@ from ..viewutil import Universe, Graph, Sandbox, cover_walks, shortest_path_to, 
 WORKERS = int(os.environ.get("VERIF_WORKERS", "16"))
 SIG = {"D1": "create_linked_view:job_ids-empty:links-an-unselected-job",
        "D2": "create_linked_view:colliding-value-texts:jobs-share-one-link",
-       "D3": "create_linked_view:directory-named-job:taken-for-a-link"}
+       "D3": "create_linked_view:directory-named-job:taken-for-a-link",
+       "D5": "create_linked_view:stale-link-on-the-path-of-a-new-link:creates-entries-inside-a-job-directory"}
 ALL5 = ["auto", "id", "tree", "flat", "const"]
 
 
@@ -33,18 +34,26 @@ def universes(quick):
     nested = [{"n": {"x": 1}, "a": 1}, {"n": {"x": 2}, "a": 1}, {"n": {"x": 1, "y": "v.1"}, "a": 1}, {"n": 7, "a": 2}]
     collide = [{"a": True}, {"a": "True"}, {"a": "x/y"}, {"a": None}]
     jobkey = [{"job": 1}, {"job": 2}, {"job": 3}]
+    # keys 'job' / 'job-id' / nested 'job.x' that only some jobs have: with all of j1..j4 selected the link a/1/job of {'a': 1} is
+    # also a directory on the path a/1/job/5/job - unrepresentable - while a/1/job-id/7/job sorts between the two ('-', '.', ' ' < '/')
+    jobhet = [{"a": 1}, {"a": 1, "job": 5}, {"a": 1, "job-id": 7}, {"a": 2, "job": 6, "job-id": 8}]
     if not quick:
         hom = hom + [{"a": 3, "b": "x y"}]
         het = het + [{"a": 2, "b": 2, "c": "é"}]
         nested = nested + [{"n": {"x": 2, "y": "v.1"}, "a": 2}]
         collide = collide + [{"x/y": 1, "a": 1.5}]
         jobkey = [{"job": 1}, {"job": 2}, {"a": "job", "job": 1}]
+        jobhet = jobhet + [{"a": 1, "job": {"x": 3}, "job 2": 9}]
     us = [Universe("hom", hom, ["auto", "tree", "flat"] if quick else ["auto", "id", "tree", "flat"]), Universe("het", het, ["auto", "id", "tree"]),
           Universe("nested", nested, ["auto", "flat", "const"]),
           Universe("collide", collide, ["auto", "id"], orders=["asc", "desc"]),
-          Universe("jobkey", jobkey, ["auto"], speckey="job")]
+          Universe("jobkey", jobkey, ["auto"], speckey="job"),
+          Universe("jobhet", jobhet, ["auto"], orders=["asc", "desc"])]
+    us[-1].max_inside = 2 if quick else 4      # (only matters while DEVIATION D5 is open: at most one / two escapes are followed up)
     for u in us:      # deviations reachable in the universe, in the order in which they are switched off for TLC's counterexamples
         u.devs = {"collide": ["D1", "D2"], "jobkey": ["D1", "D3"]}.get(u.name, ["D1"])
+        if u.name == "jobhet":
+            u.devs = ["D1", "D3", "D5"]
     return us
 
 
@@ -80,7 +89,24 @@ def _probe(work):
         out["FixedD3"] = True
     except OSError:
         out["FixedD3"] = False
-    for n in ("probe1", "probe2", "probe3"):
+    p, v = proj("probe4", [{"a": 1}, {"a": 1, "job": 5}, {"a": 2, "job": 6}])
+    try:      # leaf a/1/job listed BEFORE the path a/1/job/5/job that runs through it
+        p.create_linked_view(prefix=v, job_ids=[p.open_job(sp).id for sp in ({"a": 1}, {"a": 1, "job": 5}, {"a": 2, "job": 6})])
+        out["FixedD4"] = False
+    except RuntimeError:
+        out["FixedD4"] = True
+    except Exception:  # noqa
+        out["FixedD4"] = False
+    sps = [{"a": 1}, {"a": 1, "job": 5}, {"a": 2, "job": 6}]
+    p, v = proj("probe5", sps)
+    ids = [p.open_job(sp).id for sp in sps]
+    p.create_linked_view(prefix=v, job_ids=[ids[0], ids[2]])          # a/1/job -> {'a': 1}
+    try:
+        p.create_linked_view(prefix=v, job_ids=[ids[1], ids[2]])      # a/1/job/5/job must not be created through that link
+    except Exception:  # noqa
+        pass
+    out["FixedD5"] = sorted(os.listdir(p.open_job(sps[0]).path)) == ["signac_statepoint.json"]
+    for n in ("probe1", "probe2", "probe3", "probe4", "probe5"):
         shutil.rmtree(os.path.join(work, n), ignore_errors=True)
     return out
 
@@ -102,7 +128,7 @@ def _tlc_universe(args):
     out = {"uni": uni}
     path, consts = _write_mc(work, uni, flags, "conf")
     dot, wantf = os.path.join(work, uni.name + ".dot"), os.path.join(work, uni.name + ".want.ndjson")
-    out["graph"] = tlc.run(path, cfg_text=tlc.cfg(consts, invariants=["TypeOK"], postcondition="Export"), workdir=work, workers=workers,
+    out["graph"] = tlc.run(path, cfg_text=tlc.cfg(consts, invariants=["TypeOK"], postcondition="Export", constraints=["InsideBound"]), workdir=work, workers=workers,
                            dump=dot, coverage=False, allow_violation=False, env={"WANT_OUT": wantf})
     out["dot"], out["wantf"] = dot, wantf
     # the requirement on the conformant model: TLC's shortest counterexample for one deviation after the other
@@ -111,7 +137,7 @@ def _tlc_universe(args):
     for n, d in enumerate(uni.devs):
         if not fl["Fixed" + d]:
             p2, c2 = _write_mc(work, uni, fl, "conf%d" % n)
-            r = tlc.run(p2, cfg_text=tlc.cfg(c2, invariants=["Requirements"], alias="Shown"), workdir=work, workers=workers,
+            r = tlc.run(p2, cfg_text=tlc.cfg(c2, invariants=["Requirements"], alias="Shown", constraints=["InsideBound"]), workdir=work, workers=workers,
                         coverage=False, allow_violation=True, env={"WANT_OUT": wantf + ".unused"})
             out["req_conf"].append((d, dict(fl), r))
         fl["Fixed" + d] = True
@@ -179,7 +205,7 @@ def _strip(links):
     return {k: v.split("(")[0] for k, v in links.items()}
 
 
-def _judge_view(sb, uni, a, ws_tokens, pre, real_res, exc, obs, want, scratch=True):
+def _judge_view(sb, uni, a, ws_tokens, pre, real_res, exc, obs, want, scratch=True, ins=None):
     """requirement verdict of one real create_linked_view execution -> (kind | None, text)"""
     links, dirs, other = obs
     wres, wlinks, wdirs, sel = _want_for(want, a, ws_tokens, pre)
@@ -187,6 +213,10 @@ def _judge_view(sb, uni, a, ws_tokens, pre, real_res, exc, obs, want, scratch=Tr
     text = "real: %s links=%s dirs=%s%s; required: %s links=%s dirs=%s" % (
         real_res + (" (%s)" % str(exc)[:120] if exc else ""), dict(sorted(links.items())), sorted(dirs), " other=%s" % other if other else "",
         wres, dict(sorted(wlinks.items())), sorted(wdirs))
+    if ins is not None and ins[0] != ins[1]:
+        # whatever the model says: create_linked_view never creates or removes anything inside a job directory
+        kind = "writes-inside-job-directory"
+        text += "; entries INSIDE job directories before %s, after %s" % (sorted(ins[0]), sorted(ins[1]))
     if kind is None and real_res == "ok" and scratch:
         r2, e2, obs2 = sb.scratch_build(a)
         if r2 != "ok" or (_strip(obs2[0]), obs2[1], obs2[2]) != (_strip(links), dirs, other):
@@ -209,6 +239,7 @@ def _run_walk(uname, walk, root, wid, stop_on_problem=True):
     every = _G.get("__scratch_every__", 1)
     try:
         obs = sb.view()
+        ins = sb.inside()
         for n, eid in enumerate(walk):
             e = g.edges[eid]
             if e["src"] != cur:
@@ -220,6 +251,7 @@ def _run_walk(uname, walk, root, wid, stop_on_problem=True):
             obs = sb.view()
             ws_real = sb.ws()
             links, dirs, other = obs
+            ins_pre, ins = ins, sb.inside()
             if any(v.endswith("(absolute)") for v in links.values()):
                 out["drift"].append("%s: links are absolute, the spec's step creates relative ones" % uname)
             matched = None
@@ -227,7 +259,8 @@ def _run_walk(uname, walk, root, wid, stop_on_problem=True):
                 ae = g.edges[alt]
                 node = g.nodes[ae["dst"]]
                 ml, md = uni.view_of(node["view"])
-                if res_matches(res, exc, ae["res"]) and ws_real == node["ws"] and (_strip(links), dirs) == (ml, md) and not other:
+                if res_matches(res, exc, ae["res"]) and ws_real == node["ws"] and (_strip(links), dirs) == (ml, md) and not other \
+                        and ins == uni.inside_of(node["inside"]):
                     matched = ae
                     break
             here = "universe %s, after %s: %s" % (uname, [_describe(uni, g.edges[i]) for i in walk[:n]], _describe(uni, e))
@@ -238,7 +271,7 @@ def _run_walk(uname, walk, root, wid, stop_on_problem=True):
                 out["covered"].append(matched["id"])
                 cur, prev_action = matched["dst"], g.action_key(e)
                 continue
-            kind, text = _judge_view(sb, uni, e["a"], g.nodes[e["src"]]["ws"], pre, res, exc, obs, want, scratch=(eid % every == 0))
+            kind, text = _judge_view(sb, uni, e["a"], g.nodes[e["src"]]["ws"], pre, res, exc, obs, want, scratch=(eid % every == 0), ins=(ins_pre, ins))
             rerun = ":on-rerun" if prev_action == g.action_key(e) else ""
             rp["want"] = [x if not isinstance(x, (set, frozenset)) else sorted(x) for x in _want_for(want, e["a"], g.nodes[e["src"]]["ws"], pre)]
             if matched is not None:
@@ -255,6 +288,10 @@ def _run_walk(uname, walk, root, wid, stop_on_problem=True):
                 elif matched["dev"]:
                     out["drift"].append("%s: model took deviation %s but the requirement holds on the real execution" % (here, sorted(matched["dev"])))
                 cur, prev_action = matched["dst"], g.action_key(e)
+            elif kind is not None and len(ins) > getattr(uni, "max_inside", 2) and any("D5" in g.edges[x]["dev"] for x in g.alternatives(e)):
+                # DEVIATION D5 taken further than the bounded graph follows it (CONSTRAINT InsideBound): same defect, end of this walk
+                out["viol"].append((SIG["D5"], "%s -> %s" % (here, text), rp))
+                break
             else:
                 model = g.nodes[e["dst"]]
                 ml, md = uni.view_of(model["view"])
@@ -360,6 +397,7 @@ def _sim_replay(item):
     script = []
     try:
         ws_model = frozenset()
+        ins = sb.inside()
         for st in states[1:]:
             last = st["last"]
             if last["op"] == "idle":
@@ -372,8 +410,10 @@ def _sim_replay(item):
             out["keys"].add(("sim", repr(sorted(ws_model)), repr(sorted(pre[0].items())), repr(script[-1])))
             obs = sb.view()
             links, dirs, other = obs
+            ins_pre, ins = ins, sb.inside()
             ml, md = uni.view_of(st["view"])
-            conform = res_matches(res, exc, last["res"]) and sb.ws() == st["ws"] and (_strip(links), dirs) == (ml, md) and not other
+            conform = res_matches(res, exc, last["res"]) and sb.ws() == st["ws"] and (_strip(links), dirs) == (ml, md) and not other \
+                and ins == uni.inside_of((x["j"], x["p"]) for x in st["inside"])
             here = "universe sim (random history), step %d of %s" % (len(script), [s["op"] for s in script])
             rp = {"universe": "sim", "quick": _G["__quick__"], "steps": list(script)}
             if last["op"] != "view":
@@ -381,7 +421,7 @@ def _sim_replay(item):
                     raise core.MachineryError("%s: workspace operation does not behave as modelled" % here)
                 ws_model = st["ws"]
                 continue
-            kind, text = _judge_view(sb, uni, last["a"], ws_model, pre, res, exc, obs, want)
+            kind, text = _judge_view(sb, uni, last["a"], ws_model, pre, res, exc, obs, want, ins=(ins_pre, ins))
             rp["want"] = [x if not isinstance(x, (set, frozenset)) else sorted(x) for x in _want_for(want, last["a"], ws_model, pre)]
             if kind is not None:
                 if conform and last["dev"]:
@@ -412,13 +452,18 @@ def run(ctx):
     ctx.cov["rule"] = ("case = one edge (state (ws, view), action with arguments) of the complete reachable state graph of a universe; distinct = "
                        "distinct (universe, pre-state, action) actually executed on real signac; every edge is executed at least once on a walk from "
                        "the initial state; universes (%d jobs each): homogeneous (spaces, dots, unicode) x %s, heterogeneous, nested incl. scalar-vs-"
-                       "mapping, colliding/separator values x 2 listing orders, key named 'job'; path specs: None, False, 'a/{a}/{{auto}}', "
+                       "mapping, colliding/separator values x 2 listing orders, key named 'job', keys 'job'/'job-id'/'job.x' in some jobs only (leaf/node "
+                       "conflicts with neighbours sorting before '/') x 2 orders; after every step the job directories are snapshotted too; path specs: None, False, 'a/{a}/{{auto}}', "
                        "'a_{a}/{{auto:_}}', 'all'" % (4 if ctx.quick else 5, "3 path specs" if ctx.quick else "5 path specs"))
     flags = _probe(ctx.work)
     ctx.cov["deviation_flags_probed"] = flags
     unis = universes(ctx.quick)
     if os.environ.get("VERIF_C17_ONLY"):          # development aid: restrict the run to some universes
         unis = [u for u in unis if u.name in os.environ["VERIF_C17_ONLY"].split(",")]
+    if not flags["FixedD4"]:
+        # the order-dependent leaf/node check is a C16 finding (export shares the function); its partial effects are not modelled here
+        unis = [u for u in unis if u.name != "jobhet"]
+        ctx.notes.append("leaf/node check probed as order dependent (C16 finding): universe jobhet skipped")
     shutil.copy(os.path.join(tlc.SPEC_ROOT, "exchange", "LinkedView.tla"), ctx.work)
     tw = max(2, WORKERS // 4)
     with ThreadPoolExecutor(max_workers=4) as ex:
@@ -573,13 +618,16 @@ def replay(ctx, data):
         pre_l, pre_d, _ = sb.view()
         pre = (_strip(pre_l), pre_d)
         ws = sb.ws()
+        ins_before = sb.inside()
         res, exc = _step(sb, uni, st["op"], st["j1"], st["j2"], a)
         links, dirs, other = sb.view()
         print("%-6s %s -> %s%s\n        view links=%s dirs=%s" % (st["op"], st["j1"] + (" -> " + st["j2"] if st["j2"] else "") if st["op"] != "view" else
               "job_ids=%s path=%r order=%s" % ("None" if a["kind"] == "all" else sorted(a["S"]), uni.path_arg(a["ps"]), a["ord"]),
               res, " (%s)" % exc if exc else "", dict(sorted(links.items())), sorted(dirs)))
+    ins = sb.inside()
+    print("entries inside job directories before the last step: %s, after: %s" % (sorted(ins_before), sorted(ins)))
     wres, wlinks, wdirs, sel = data["want"]
-    kind = classify(res, exc, _strip(links), dirs, other, wres, wlinks, set(wdirs), pre[0], pre[1], set(sel), ws)
+    kind = "writes-inside-job-directory" if ins != ins_before and data["steps"][-1]["op"] == "view" else classify(res, exc, _strip(links), dirs, other, wres, wlinks, set(wdirs), pre[0], pre[1], set(sel), ws)
     sb.close()
     print("required: %s links=%s dirs=%s" % (wres, wlinks, sorted(wdirs)))
     print("VIOLATED: %s" % kind if kind else "requirement holds on this history")
